@@ -161,7 +161,7 @@ static void check_prefix(const std::string &a, const std::string &b)
 static const char *TYPES[] = {"", "t", "ty", "#none"};  // #none: no "://" at all
 static const char *FILES[] = {"f", "ff", "f.x", "d/f"};
 static const char *NAMES[] = {"a", "b", "cc"};
-static const char *VALUES[] = {"#absent", "", "1", "22"};
+static const char *VALUES[] = {"#absent", "", "1", "22", "x=y", "="};  // a value may contain '=': the first one separates
 
 static void check_url(int ti, int fi, const std::vector<std::pair<int, int>> &ps)
 {
@@ -590,7 +590,7 @@ int main(int argc, char **argv)
           if ((int)ps.size() == maxp)
             return;
           for (int n = 0; n < 3; n++)
-            for (int v = 0; v < 4; v++) {
+            for (int v = 0; v < 6; v++) {
               ps.push_back(std::make_pair(n, v));
               rec();
               ps.pop_back();
